@@ -80,6 +80,9 @@ type Run struct {
 	Delays  []int // ms before each chunk (len = len(Chunks)+1)
 	Kill    Kill
 	EndWait int // ms between the last chunk and closing stdin
+	// SlowRowUs > 0: every result row written takes this long (verif hook sleep), so that a report lasts long
+	// enough to overlap with the next interval tick / the final report
+	SlowRowUs int
 }
 
 // Case is a history of runs against one outfile path.
@@ -91,7 +94,7 @@ type Case struct {
 	PreExisting string
 }
 
-var killPoints = []string{"queryfile.write", "queryfile.rename", "outfile.open", "outfile.header", "outfile.row", "outfile.rows.done", "outfile.rename"}
+var killPoints = []string{"queryfile.write", "queryfile.rename", "outfile.open", "outfile.header", "outfile.row", "outfile.rows.done", "outfile.rename", "outfile.renamed"}
 
 func genQuery(t *rapid.T, tb gen.Table) gen.Q {
 	q := gen.MaprQuery(tb, false).Draw(t, "query")
@@ -140,10 +143,18 @@ func genRun(t *rapid.T, d Data, nq int, forceKill string) Run {
 			max := rapid.SampledFrom([]int{1, 2, 5, d.NGroups, 2*d.NGroups + 1, 3*d.NGroups + 2}).Draw(t, "krow-max")
 			k = rapid.IntRange(1, max).Draw(t, "krow")
 		}
-		if p == "outfile.rename" {
+		if p == "outfile.rename" || p == "outfile.renamed" {
 			k = 1
 		}
 		r.Kill = Kill{Kind: "hook", Point: p, K: k}
+	}
+	if rapid.IntRange(0, 2).Draw(t, "slowrows") == 0 {
+		// aim at a report duration of 0.1 .. 1.3 s
+		target := rapid.SampledFrom([]int{100, 300, 600, 900, 1300}).Draw(t, "report-ms")
+		r.SlowRowUs = target * 1000 / d.NGroups
+		if r.SlowRowUs < 50 {
+			r.SlowRowUs = 50
+		}
 	}
 	return r
 }
@@ -210,8 +221,15 @@ func runOnce(dir, out, queryStr string, lines []string, r Run, idx int) obs {
 	cmd := exec.Command(lib.Bin("dmap"), "--noColor", "--logLevel", "error", "--query", queryStr)
 	cmd.Dir = dir
 	cmd.Env = []string{"HOME=" + dir, "PATH=/usr/bin:/bin", "USER=root", "VHOOK_TRACE=" + tracePath}
+	var sched []string
 	if r.Kill.Kind == "hook" {
-		cmd.Env = append(cmd.Env, fmt.Sprintf("VHOOK_SCHED=%s=kill:%d", r.Kill.Point, r.Kill.K))
+		sched = append(sched, fmt.Sprintf("%s=kill:%d", r.Kill.Point, r.Kill.K))
+	}
+	if r.SlowRowUs > 0 && !(r.Kill.Kind == "hook" && r.Kill.Point == "outfile.row") {
+		sched = append(sched, fmt.Sprintf("outfile.row=sleep:%dus", r.SlowRowUs))
+	}
+	if len(sched) > 0 {
+		cmd.Env = append(cmd.Env, "VHOOK_SCHED="+strings.Join(sched, ";"))
 	}
 	stdin, err := cmd.StdinPipe()
 	if err != nil {
@@ -411,6 +429,9 @@ func checkRun(c Case, ri int, start sample, queryStr string, o obs, earlierQueri
 	default:
 		rr.classes = append(rr.classes, "clean-run")
 	}
+	if r.SlowRowUs > 0 {
+		rr.classes = append(rr.classes, "slowed-row-writes")
+	}
 	if r.Append {
 		rr.classes = append(rr.classes, "append")
 	} else {
@@ -424,7 +445,7 @@ func checkRun(c Case, ri int, start sample, queryStr string, o obs, earlierQueri
 		rr.classes = append(rr.classes, "interim-results-written")
 	}
 	if o.Killed && o.Trace["outfile.open"] > o.Trace["outfile.rows.done"] || o.Killed && o.Trace["queryfile.write"] > o.Trace["outfile.open"] ||
-		o.Killed && r.Kill.Kind == "hook" && (r.Kill.Point == "outfile.rename" || r.Kill.Point == "outfile.rows.done") {
+		o.Killed && r.Kill.Kind == "hook" && (r.Kill.Point == "outfile.rename" || r.Kill.Point == "outfile.rows.done" || r.Kill.Point == "outfile.renamed") {
 		rr.midWrite = true
 		rr.classes = append(rr.classes, "killed-inside-a-report")
 	}
@@ -663,7 +684,7 @@ func dedupe(l []string) []string {
 func sampleOf(c Case) interface{} {
 	var runs []interface{}
 	for _, r := range c.Runs {
-		runs = append(runs, map[string]interface{}{"append": r.Append, "query": gen.Canonical(c.Queries[r.Query]), "lines": r.Upto, "delays_ms": r.Delays, "kill": r.Kill})
+		runs = append(runs, map[string]interface{}{"append": r.Append, "query": gen.Canonical(c.Queries[r.Query]), "lines": r.Upto, "delays_ms": r.Delays, "kill": r.Kill, "slow_row_us": r.SlowRowUs})
 	}
 	return map[string]interface{}{"groups": c.Data.NGroups, "lines": c.Data.NLines, "preexisting_outfile": c.PreExisting != "", "runs": runs}
 }
